@@ -30,6 +30,7 @@ func init() {
 		Explanation: "Decides structural necessary conditions of convergence, on every path and for every schedule: (1) in the cache, content, version and the event's update flag change together, and an initial load stores content, version 0 and the loaded state only under the not-loaded test of that same entry (PAIR/version-bump); every event is stamped with the pre-update version, applied by its handler, fanned out inside the unlock window and dropped only by the listed discards (CONF/handle-event); (2) cache content and version are written only by cache tasks under the entry's mutex and read under it (CTX/guarded-by); (3) the subscriber applies an event only when it targets its version and advances by one per update (DOM/version-filter); (4) events are processed only with the event gate known open, discarded before load, and reaccess dispatched first (DOM/event-gate); (5) queues are updated in order-preserving forms (FIFO); (6) all mutable subscription state is touched on the connection worker only (CTX/conn); (7) a resource made sendable again must carry a current snapshot (PAIR/snapshot-current: known finding F13); cached model and collection values are never written in place: every container write in the repository is traced to its origin and none originates from Collection.Values / Model.Values (DOM/copy-on-write); a fanned-out ResourceEvent is read-only, no field of it — also one added later — is stored by subscriber-side code (WHO/event-immutable). Not decided: end-to-end equality of the client copy with the service state, Value.Equal, the reset diff (C12), the collector (C02), JSON encodings, legacy-encoding selection.",
 		Assumptions: append([]string{"at most one cache worker runs a resource queue at a time (FIFO/CHAN rules) and one output worker per connection (CTX/conn)"}, baseAssumptions...),
 		Rules: []Rule{
+			{Name: "PAIR/cache-count", Min: 1, Run: rulePairCacheCount, Doc: "an entry handed out for subscribing has its event subscription (no events, no convergence)"},
 			{Name: "LIN/queue-detach", Min: 1, Run: ruleQueueDetach, Doc: "queued events taken off the subscription are processed or re-queued on every path"},
 			{Name: "WHO/event-immutable", Min: 5, Run: ruleEventImmutable, Doc: "a fanned-out event is read-only: no subscriber-side store into the shared ResourceEvent"},
 			{Name: "PAIR/version-bump", Min: 2, Run: ruleVersionBump, Doc: "content, version and update flag change together; initial load guarded"},
@@ -48,8 +49,8 @@ func init() {
 				{Field: "server.Subscription.queueFlag", Writers: w("server.NewSubscription", "initial loading gate", "(*server.Subscription).queueEvents", "close", "(*server.Subscription).unqueueEvents", "open")},
 				{Field: "rescache.ResourceSubscription.model", Writers: w("(*rescache.ResourceSubscription).handleEventChange", "copy-on-write update", "(*rescache.ResourceSubscription).processGetResponse", "initial load")},
 				{Field: "rescache.ResourceSubscription.collection", Writers: w("(*rescache.ResourceSubscription).handleEventAdd", "copy-on-write", "(*rescache.ResourceSubscription).handleEventRemove", "copy-on-write", "(*rescache.ResourceSubscription).processGetResponse", "initial load")},
-				{Field: "rescache.Model.data", Writers: w("(*rescache.Model).MarshalJSON", "encoding of the latest protocol, cached once")},
-				{Field: "rescache.Collection.data", Writers: w("(*rescache.Collection).MarshalJSON", "encoding of the latest protocol, cached once")},
+				{Field: "rescache.Model.data", Writers: w("(*rescache.Model).MarshalJSON", "encoding of the latest protocol, cached once"), Readers: w("(*rescache.Model).MarshalJSON", "the cached bytes are the latest protocol's encoding: legacy encoders must not hand them out")},
+				{Field: "rescache.Collection.data", Writers: w("(*rescache.Collection).MarshalJSON", "encoding of the latest protocol, cached once"), Readers: w("(*rescache.Collection).MarshalJSON", "the cached bytes are the latest protocol's encoding: legacy encoders must not hand them out")},
 				{Field: "rescache.ResourceSubscription.version", Writers: w("(*rescache.ResourceSubscription).handleEventAdd", "bump", "(*rescache.ResourceSubscription).handleEventRemove", "bump", "(*rescache.ResourceSubscription).handleEventChange", "bump", "(*rescache.ResourceSubscription).processGetResponse", "initial 0")},
 			}), Doc: "who may write version / gate / cache content"},
 		},
@@ -60,6 +61,10 @@ func init() {
 		Explanation: "Decides: the typestate table of Subscription.state (who may move a subscription into which state); populate → hand the frame over → release on every path (PAIR/rpc-resources); the shapes the collector relies on: ReleaseRPCResources marks sent, descends into every reference and then opens the loading gate; populateResources* count an edge once, skip sent resources and mark ToSend before descending; removeCount's counter effects follow its direct/sent/tryDelete arguments; every disposed subscription leaves the connection's table (DOM/ref-shapes); references are released with the parent's sent-ness as it was while the edge was counted (PROV/sent-flag: known finding F6); the sent-count is raised once per created edge (PAIR/edge-sent-once: known finding F8); a re-sendable resource has a current snapshot and a closed gate (PAIR/snapshot-current: known finding F13); no change on a collection, no add/remove on a model, decoded indexes inside [0,len] (DOM/index-kind-guard); no event before the hand-over (DOM/event-gate); recursion census. NOT decided — and this is the core of the property: correctness of the two-pass reference-count collector tryDelete/Unsend and of the indirectsent arithmetic on arbitrary reference graphs.",
 		Assumptions: baseAssumptions,
 		Rules: []Rule{
+			{Name: "WHO/encoding-cache", Min: 2, Run: ruleWho([]whoEntry{
+				{Field: "rescache.Model.data", Writers: w("(*rescache.Model).MarshalJSON", "encoding of the latest protocol, cached once"), Readers: w("(*rescache.Model).MarshalJSON", "legacy clients get soft references rewritten: the cached latest-protocol bytes are not theirs")},
+				{Field: "rescache.Collection.data", Writers: w("(*rescache.Collection).MarshalJSON", "encoding of the latest protocol, cached once"), Readers: w("(*rescache.Collection).MarshalJSON", "legacy clients get soft references rewritten: the cached latest-protocol bytes are not theirs")},
+			}), Doc: "the cached encoding of a resource is written and read by the latest-protocol encoder only"},
 			{Name: "PAIR/version-bump", Min: 2, Run: ruleVersionBump, Doc: "a shared cache entry is not re-initialised (version reset) by a second query that normalises to it: subscribers would apply later add/remove events to a stale collection"},
 			{Name: "PAIR/sent-with-frame", Min: 2, Run: ruleSentWithFrame, Doc: "an edge is counted as sent in the task that writes its frame, not before a wait"},
 			{Name: "TYPESTATE/sub-state", Min: 5, Run: ruleStateTable("server.Subscription.state", subStateNames, subStateTable), Doc: "who may move a subscription into which state"},
@@ -85,6 +90,7 @@ func init() {
 		Explanation: "Decides: the five queues are updated only in order-preserving forms, including the re-queue of not-yet-processed events before newer ones (FIFO/queues); a worker is woken only on the empty→non-empty transition of a resource queue and never while locks are set (DOM/inch-send), so one worker at a time runs a queue; handleEvent stamps, applies and fans out inside one unlock window with no go statement (CONF/handle-event); Subscriber.Event only enqueues and the continuation of every handler runs on the connection worker (CTX/conn); an applied update advances cache and subscriber versions by exactly one and a stamped event is applied only at its version, hence at most once (PAIR/version-bump, DOM/version-filter); nothing is processed before the hand-over or while the gate is closed, with the in-loop re-test (DOM/event-gate); the bookkeeping of a callback slot (in-flight flag, cached verdict, the slot itself) is finished before the slot's continuations run, so a re-access started from inside a callback is not lost (DOM/drain-reentrancy). Not decided: the capacity countdown of the lock list, delivery by the socket, the 'equivalent derived sequence' exception (C12).",
 		Assumptions: baseAssumptions,
 		Rules: []Rule{
+			{Name: "PAIR/rpc-resources", Min: 2, Run: ruleRPCResources, Doc: "the resources of a frame are released (their held-back events let through) only after the frame that first hands them to the client"},
 			{Name: "LIN/queue-detach", Min: 1, Run: ruleQueueDetach, Doc: "queued events taken off the subscription are processed or re-queued on every path"},
 			{Name: "WHO/event-immutable", Min: 5, Run: ruleEventImmutable, Doc: "a per-subscriber frame cached in the shared event delivers one subscriber's event to another (duplicate plus gap)"},
 			{Name: "DOM/drain-reentrancy", Min: 2, Run: ruleDrainReentrancy, Doc: "slot bookkeeping finished before the slot's continuations run (they may re-enter)"},
@@ -161,6 +167,7 @@ func init() {
 		Explanation: "Decides, for every path and schedule: rpc.HandleRequest performs exactly one Reply per dispatched request, directly or inside a handler continuation, and Reply is called from nowhere else (LIN/reply); every continuation parameter of the handlers and combinators is consumed exactly once on every full path — called, delegated to another linear function, or parked in a pending slot (LIN/continuations); pending callback slots are cleared only after draining, or when the connection itself goes away (LIN/drain: known finding F9 — Dispose drops ready callbacks on a live connection); an answered throttled request always frees its slot, so the access checks queued behind it — and the client requests waiting for them — are not stranded (PAIR/throttle-slot); continuations run on the connection worker (CTX/conn); every outcome of a get response collects the subscribers waiting on it (DOM/answer-waiting); slot bookkeeping is finished before continuations run (DOM/drain-reentrancy). Not decided: liveness (that a parked continuation is eventually run), the readyCallback.loading countdown arithmetic.",
 		Assumptions: append([]string{"mq.Client.SendRequest completes exactly once (C18)", "a continuation refused by wsConn.Enqueue because the connection is disposing is an accepted drop"}, baseAssumptions...),
 		Rules: []Rule{
+			{Name: "PAIR/ready-count", Min: 1, Run: ruleReadyCount, Doc: "a subscription gives its ready count back only after descending into its references (no double answer)"},
 			{Name: "WHO/handler-callers", Min: 3, Run: ruleHandlerCallers, Doc: "a derived delete goes through handleEvent, which discards it while the initial get is outstanding (the waiting subscribers stay registered and are answered)"},
 			{Name: "DOM/answer-waiting", Min: 1, Run: ruleAnswerWaiting, Doc: "every outcome of a get response collects the subscribers waiting on it"},
 			{Name: "DOM/drain-reentrancy", Min: 2, Run: ruleDrainReentrancy, Doc: "slot bookkeeping finished before the slot's continuations run (they may re-enter)"},
@@ -180,6 +187,8 @@ func init() {
 		Explanation: "Decides: on every continuation path of every function that takes a direct subscription the count is released exactly once on every failure and on every outcome of get-type handlers, kept exactly on the success of subscribe-type handlers, and never released when Subscribe itself failed (PAIR/direct-count); an unsubscribe removes counts only behind the test direct >= count with the same count (DOM/unsub-precond); the count parameter is validated as positive (DOM/count-param); direct++ only below the limit (DOM/sub-limit); revocation and delete remove all direct subscriptions (DOM/revoke); direct is written by addCount/removeCount only; params that carry no count unsubscribe once: a decoded-params path reaches UnsubscribeResource with the default 1 (DOM/unsub-precond). Not decided: numeric equality of the counter with the response history (it is the sum of the per-path facts).",
 		Assumptions: append([]string{"LIN (C07): every handler replies exactly once", "a task refused by a disposing connection needs no release (dispose releases everything)"}, baseAssumptions...),
 		Rules: []Rule{
+			{Name: "DOM/gc-mark", Min: 1, Run: ruleGCMark, Doc: "the collector marks a held node, or one reached from a kept node, kept — also over an earlier deletion mark: a subscription shared with a kept parent is not disposed"},
+			{Name: "DOM/one-sub-per-rid", Min: 1, Run: ruleOneSubPerRID, Doc: "a connection registers a new Subscription object for a resource ID only where the lookup of that ID found none"},
 			{Name: "PAIR/loaded-handover", Min: 1, Run: rulePairLoaded, Doc: "a get answer arriving after the failed request was released gives its cache use back"},
 			{Name: "PAIR/direct-count", Min: 2, Run: rulePairDirect, Doc: "acquire/release of the direct count along every continuation path"},
 			{Name: "DOM/unsub-precond", Min: 1, Run: ruleUnsubPrecond, Doc: "unsubscribe precondition, count validation, limit"},
@@ -196,6 +205,7 @@ func init() {
 		Explanation: "Decides: getSubscription counts one use on every successful return and none on an error return, errors only when an mq subscription was requested, and with subscribe=true returns only after the entry's mq subscription exists (PAIR/cache-count); callers release the use or hand it to addSubscriber exactly once; a count is released iff a membership was removed and bulk releases equal the set dropped (PAIR/membership); a late or repeated Loaded owns or releases the resource exactly once (PAIR/loaded-handover); eviction re-checks the count under the locks, addCount cancels a pending eviction, removeCount queues the entry exactly at zero, gauges follow the count (DOM/evict); get requests are issued only from addSubscriber / reset (DOM/sub-before-get); a removed entry is cleared from every index it is findable through — base (also for the empty alias), queries, links (DOM/unregister). Not decided: the eviction delay and timers, gauges reading zero at a particular moment.",
 		Assumptions: baseAssumptions,
 		Rules: []Rule{
+			{Name: "DOM/gc-mark", Min: 1, Run: ruleGCMark, Doc: "the collector marks a held node, or one reached from a kept node, kept — also over an earlier deletion mark: a subscription shared with a kept parent is not disposed"},
 			{Name: "DOM/unregister", Min: 1, Run: ruleUnregister, Doc: "a removed cache entry is cleared from every index (base, queries, links)"},
 			{Name: "PAIR/cache-count", Min: 1, Run: rulePairCacheCount, Doc: "getSubscription / sendRequest / Subscribe use count pairing"},
 			{Name: "PAIR/membership", Min: 1, Run: rulePairMembership, Doc: "count released iff a membership was removed"},
@@ -213,6 +223,8 @@ func init() {
 		Explanation: "Decides: every request site sends the requesting connection's own id and its current token (PROV/token-cid); no value derived from the connection id, the {cid}-expanded resource name/query or the cache's resource name reaches a client-facing sink — event names, resource-set keys, resource-response rids, hrefs (PROV/cid-taint, backward provenance over the whole program); ExpandCID is called on the service-facing side only and expands every tag; token resets re-authenticate only connections whose own tid is listed; events are fanned out to the subscriber set of the resource being handled (DOM/fanout-set); no subscriber-side store into the shared ResourceEvent, whatever the field (WHO/event-immutable). Not decided: what services put into payloads.",
 		Assumptions: baseAssumptions,
 		Rules: []Rule{
+			{Name: "DOM/gc-mark", Min: 1, Run: ruleGCMark, Doc: "the collector neither keeps released nor disposes still-held subscriptions of a connection"},
+			{Name: "PAIR/gc-countdown", Min: 1, Run: ruleGCCountdown, Doc: "a connection that released a resource lying on a reference cycle keeps no subscription to it (and so receives none of its events later)"},
 			{Name: "WHO/event-immutable", Min: 5, Run: ruleEventImmutable, Doc: "a fanned-out event is read-only: no subscriber-side store into the shared ResourceEvent"},
 			{Name: "PROV/token-cid", Min: 5, Run: ruleTokenCID, Doc: "requests carry the connection's own id and current token"},
 			{Name: "PROV/cid-taint", Min: 7, Run: ruleCIDTaint, Doc: "expanded names never reach client-facing sinks; ExpandCID callers; tid filter"},
@@ -227,6 +239,7 @@ func init() {
 		Explanation: "Decides: wsConn.dispose sets the flag and closes the worker channel in one critical section, removes the connection from the cache and from token-reset fan-out, unsubscribes the connection events, disposes every subscription, and leaves the registry (DOM/dispose); Subscription.Dispose releases references and exactly one cache use; Enqueue/Subscribe/Unsubscribe refuse a disposing connection; a late Loaded releases the cache use (PAIR/loaded-handover); late access answers are absorbed (DOM/verdict-store); no call/auth request is issued by a continuation of a disposed connection (CTX/post-dispose); a refused task never strands a throttle slot of other connections (PAIR/throttle-slot); temporary HTTP connections are disposed exactly once on every exit (LIN/temp-conn); sends on the worker channel cannot hit the close (CHAN); teardown takes the connection and cache mutexes in an order that cannot deadlock against the token-reset fan-out (LOCK/order). Not decided: 'no effect on other connections' as a runtime fact beyond the pairing rules of C09.",
 		Assumptions: baseAssumptions,
 		Rules: []Rule{
+			{Name: "CTX/conn", Min: 25, Run: ruleConfinement, Doc: "every service request on a connection's behalf reads its token and is therefore issued from that connection's worker (whose queue refuses tasks after the close) — never straight from a service-answer callback"},
 			{Name: "FIFO/queues", Min: 1, Run: ruleFIFO("rescache.Throttle.queue"), Doc: "a disposed subscription drops no request waiting in the shared throttle (the cache entry it already counted a use on would never be released)"},
 			{Name: "LOCK/order", Min: 2, Run: ruleLockOrder, Doc: "teardown cannot deadlock against the token-reset fan-out: lock order acyclic"},
 			{Name: "DOM/dispose", Min: 3, Run: ruleDispose, Doc: "dispose set; refusal after close; Subscription.Dispose"},
@@ -278,6 +291,7 @@ func init() {
 		Explanation: "Decides: at all 10 publish/subscribe sites the subject is assembled only from literal prefixes and values whose every provenance leaf (backward over the whole program: parameters through the call graph, fields through all their stores, decoders) is validated by IsValidRID/IsValidRIDPart on the path to its use, trusted (xid, constants) or one of the two service-addressed subjects; the query part of a resource id never reaches a subject (PROV/subject); the recognisers reject control characters, space, DEL, non-ASCII, '*', '>' (and '.', '?' for parts) on every path of a scan step (TABLE/reject-set, constant propagation per character); every subject is validated hence invalid input reaches no service request. Not decided: the recognisers on whole strings (token structure), PathToRID decoding of every byte string.",
 		Assumptions: baseAssumptions,
 		Rules: []Rule{
+			{Name: "TABLE/rid-split", Min: 1, Run: ruleRIDSplit, Doc: "the id is cut into name and query at its first '?', where the validator stops checking"},
 			{Name: "PROV/cid-taint", Min: 7, Run: ruleCIDTaint, Doc: "every {cid} tag of the resource name is expanded before it reaches a subject"},
 			{Name: "PROV/subject", Min: 5, Run: ruleSubjectProv, Doc: "subjects built from validated parts"},
 			{Name: "TABLE/reject-set", Min: 1, Run: ruleRejectSet(rejectSpecs()), Doc: "recognisers reject the excluded characters"},
@@ -309,6 +323,7 @@ func init() {
 		Explanation: "Decides: in both encoders the expansion path is pushed and popped on every successful path, the cycle test and the error-leaf return precede the push, the recursive descent is guarded by the cycle test and the push, so the expansion terminates on cyclic graphs and later siblings are not cut (PAIR/enc-path); the subscription is handed to the renderer before its resources are released, so the rendering is of the graph as cached at response time and not of one that queued events have already changed (PAIR/rpc-resources); HEAD and GET take the same path and HEAD is tested nowhere else; the two encoders agree on the value kinds (TWIN/encode-value); resource responses set Location from the unexpanded rid (PROV/cid-taint clause of C10); every successful path of both encoders, for collections and models of 0, 1 and 2 elements, emits exactly one well-formed JSON value skeleton, and every non-literal write is JSON by construction — json.Marshal, a json.RawMessage from the decoder, an encoded error (PAIR/emit). Not decided — the core: equality of the rendering with the recursive expansion for every graph; JSON well-formedness beyond the guarded structure; RIDToPath/PathToRID as inverse maps.",
 		Assumptions: baseAssumptions,
 		Rules: []Rule{
+			{Name: "DOM/copy-on-write", Min: 1, Run: ruleCopyOnWrite, Doc: "the content a pending GET renders is the cached state of some moment: cached model/collection values already handed to subscriptions are never written in place"},
 			{Name: "PAIR/loaded-handover", Min: 1, Run: rulePairLoaded, Doc: "a repeated Loaded does not re-read the resource after its ready-callbacks were consumed (a reference still loading would be rendered)"},
 			{Name: "PAIR/enc-path", Min: 1, Run: ruleEncoder, Doc: "expansion path balance, cycle guard, HEAD==GET"},
 			{Name: "TWIN/encode-value", Min: 1, Run: ruleEncodeValueTwin, Doc: "value kind dispatch of both encoders"},
@@ -323,6 +338,7 @@ func init() {
 		Explanation: "Decides completely the finite tables: errorStatus maps each code of the property's table (and five other codes) to the stated status, by constant propagation with the code fixed (TABLE/errorStatus); IsDirectResponseStatus and IsValidStatus are true exactly within 300..599, with the nil cases (TABLE/status-interval); MergeHeader never copies the five protected keys, each canonical, appends Set-Cookie and replaces other keys (TABLE/protected); every meta a decoder hands out was canonicalised (DOM/canonicalize); on a direct-response status no further service request is issued and no data is handed out (DOM/gates); the origin check precedes header auth and every service request (DOM/origin); the error-to-status table is closed: every code errorStatus tells apart, and any other, maps to the listed status or 400 (TABLE/errorStatus). Not decided: matchesOrigins for all strings, net/http and gorilla behaviour.",
 		Assumptions: baseAssumptions,
 		Rules: []Rule{
+			{Name: "TABLE/method-rewrite", Min: 2, Run: ruleMethodRewrite, Doc: "an error is replaced by methodNotAllowed only for request methods other than GET, HEAD, POST (methodNotFound keeps its 404 there)"},
 			{Name: "TABLE/errorStatus", Min: 7, Run: ruleErrorStatus, Doc: "error code to status table"},
 			{Name: "TABLE/status-interval", Min: 1, Run: ruleStatusInterval, Doc: "meta status window 300..599"},
 			{Name: "TABLE/protected", Min: 3, Run: ruleProtectedHeaders, Doc: "protected headers, Set-Cookie accumulation"},
@@ -372,6 +388,7 @@ func init() {
 		Explanation: "Decides: Stop runs metrics, sockets, HTTP, messaging in this order on the one path that is not a repeated Stop, sets stopping under the mutex first and reports the cause on the stop channel last; the messaging client is closed with a bounded wait before the cache stops; Cache.Stop closes the worker channel, clears pending evictions and resets started; no connection is created or registered once stopped or stopping; loss of the messaging connection stops the service with the cause (DOM/stop); sends on inCh cannot hit the close (CHAN: known finding F5); a connection reports itself done to Stop (wg.Done) only after it released its cache and messaging resources (DOM/dispose). Not decided: that sockets are closed within the timeouts, net/http shutdown, 'never serves from a stale cache' as a runtime fact.",
 		Assumptions: baseAssumptions,
 		Rules: []Rule{
+			{Name: "LOCK/order", Min: 2, Run: ruleLockOrder, Doc: "Stop completes: no lock is re-acquired, directly or by a task it waits for, while it is held (mutex acquisition graph acyclic, synchronous hand-offs included)"},
 			{Name: "DOM/nats-plumbing", Min: 2, Run: ruleNatsPlumbing, Doc: "every loss of the server connection reaches the closed handler (which stops the service)"},
 			{Name: "DOM/dispose", Min: 3, Run: ruleDispose, Doc: "a connection reports itself done to Stop only after it released everything it holds in the cache and the messaging client"},
 			{Name: "DOM/stop", Min: 3, Run: ruleStop, Doc: "ordered shutdown, cache clean-up, refusal of new connections, closed-handler plumbing"},
